@@ -84,12 +84,17 @@ void harness_ecdsa_sig(void) {
 #ifndef DERONLY
         r = secp256k1_ecdsa_verify(&ctx, &sig, in.a32, &in.pk); BOOL(r);
 #endif
-        NOCB(); __CPROVER_assert(0, "witness: a signature parses");
+        NOCB();
+#if !defined(DERLEN) || DERLEN >= 8
+        __CPROVER_assert(0, "witness: a signature parses");
+#endif
     }
 #ifndef DERLEN
     free(buf);
 #else
-    if (DERLEN < 8) __CPROVER_assert(0, "witness: a signature parses");   /* no DER signature is shorter than 8 bytes: the witness is reaching the end */
+#if DERLEN < 8
+    __CPROVER_assert(0, "witness: end reached (no DER signature is shorter than 8 bytes)");
+#endif
 #endif
 }
 void harness_recoverable(void) {
